@@ -93,6 +93,9 @@ func Generate(profile string, seed uint64, tier string) (*Scenario, error) {
 	case "C12c":
 		sc.Property = "C12"
 		genC12c(g, sc, tier)
+	case "C08":
+		sc.Property = "C08"
+		genC08(g, sc, tier)
 	case "C20":
 		sc.Property = "C20"
 		c := g.baseStoreCfg(tier)
@@ -190,6 +193,7 @@ func Generate(profile string, seed uint64, tier string) (*Scenario, error) {
 		}
 		sc.Knobs["schedSeed"] = int64(g.r.Uint64() >> 1)
 		sc.Knobs["preemptPct"] = int64(g.PickInt([]int{20, 50, 70}))
+		sc.Knobs["preemptNsLock"] = 1 // every namespace-lock acquisition is a scheduling point
 	case "C12x":
 		sc.Property = "C12"
 		genC12(g, sc, tier)
@@ -383,6 +387,8 @@ func Execute(sc *Scenario) *Verdict {
 	switch sc.Profile {
 	case "C01", "C02", "C03", "C06", "C12":
 		return RunStoreScenario(sc)
+	case "C08":
+		return RunJobScenario(sc)
 	case "C05", "C02c", "C12c", "C13c", "C19c":
 		return RunConcScenario(sc)
 	case "C04", "C07", "C12x", "C13", "C19", "C20":
@@ -746,4 +752,89 @@ func genC13(g *G, sc *Scenario, tier string) {
 		}
 	}
 	sc.Knobs["maxStates"] = 10
+}
+
+func jobConfig(id string, source, sink, transform map[string]any, jobType string, batch int) map[string]any {
+	cfg := map[string]any{
+		"id": id, "title": id, "source": source, "sink": sink, "paused": true, "batchSize": batch,
+		"triggers": []any{map[string]any{"triggerType": "cron", "jobType": jobType, "schedule": "@every 8760h"}},
+	}
+	if transform != nil {
+		cfg["transform"] = transform
+	}
+	return cfg
+}
+
+// genC08: source histories interleaved with job runs; faults inside the runs.
+func genC08(g *G, sc *Scenario, tier string) {
+	c := g.baseStoreCfg(tier)
+	c.PNested, c.PTxn, c.PRestart = 0, 0, 0
+	nsrc := g.Range(1, 3)
+	srcs := []string{"srcA", "srcB", "srcC"}[:nsrc]
+	sc.Datasets = append(append([]string{}, srcs...), "sink")
+	c.Datasets = srcs
+	jobType := g.Pick([]string{"incremental", "incremental", "fullsync"})
+	batch := g.Range(1, 5)
+	var source map[string]any
+	latestOnly := g.P(0.4)
+	if nsrc == 1 {
+		source = map[string]any{"Type": "DatasetSource", "Name": srcs[0], "LatestOnly": latestOnly}
+	} else {
+		var l []any
+		for _, s := range srcs {
+			l = append(l, map[string]any{"Name": s, "LatestOnly": latestOnly})
+		}
+		source = map[string]any{"Type": "UnionDatasetSource", "DatasetSources": l}
+	}
+	sc.Ops = append(sc.Ops, Op{K: "addJob", M: jobConfig("job1", source, map[string]any{"Type": "DatasetSink", "Name": "sink"}, nil, jobType, batch)})
+	m := NewModel()
+	for _, d := range srcs {
+		m.Create(d)
+	}
+	// disjoint id pools per source in most runs, overlapping in some
+	overlap := g.P(0.3)
+	pools := map[string][]string{}
+	for i, s := range srcs {
+		if overlap {
+			pools[s] = c.Pool
+		} else {
+			pools[s] = poolNames(MkE, fmt.Sprintf("s%d_", i), g.Range(2, 4))
+		}
+	}
+	full := c.Pool
+	points := []string{"pipeline.incr.afterSink", "pipeline.incr.afterToken"}
+	if jobType == "fullsync" {
+		points = []string{"pipeline.full.afterStart", "pipeline.full.afterBatch", "pipeline.full.beforeEnd", "pipeline.full.afterEnd"}
+	}
+	rounds := g.Range(1, 4)
+	for rd := 0; rd < rounds; rd++ {
+		for w := g.Range(1, 4); w > 0; w-- {
+			ds := g.Pick(srcs)
+			c.Pool = pools[ds]
+			ents := g.batch(c, m, ds)
+			m.Batch(ds, ents)
+			sc.Ops = append(sc.Ops, Op{K: "batch", DS: ds, Ents: ents})
+		}
+		c.Pool = full
+		spec := map[string]any{}
+		x := g.r.Float64()
+		switch {
+		case x < 0.2:
+			spec["sinkFailAt"] = g.Range(1, 4)
+		case x < 0.35:
+			spec["killPoint"], spec["killAt"] = g.Pick(points), g.Range(1, 3)
+		case x < 0.6:
+			spec["crashPoint"], spec["crashAt"] = g.Pick(points), g.Range(1, 3)
+		}
+		if g.P(0.15) {
+			sc.Ops = append(sc.Ops, Op{K: "restart"})
+		}
+		sc.Ops = append(sc.Ops, Op{K: "run", S: "job1", DS: jobType, M: spec})
+		if len(spec) > 0 {
+			// a clean run after the faulty one must restore equality, and a further one adds nothing
+			sc.Ops = append(sc.Ops, Op{K: "run", S: "job1", DS: jobType, N: 1})
+		} else if g.P(0.5) {
+			sc.Ops[len(sc.Ops)-1].N = 1
+		}
+	}
 }
